@@ -141,6 +141,10 @@ fn base_string(base: u8) -> Vec<u8> {
 }
 
 pub fn array_value(a: ArrSpec) -> Vec<u8> {
+    if a.base == 10 {
+        // many distinct short values (large value stores)
+        return format!("n{:07}", a.cut).into_bytes();
+    }
     let b = base_string(a.base);
     let mut v = b[..(a.cut as usize).min(b.len())].to_vec();
     match a.tweak % 8 {
@@ -314,7 +318,7 @@ pub fn estore_strategy(size: SizeClass, sort: SortMode, allow_ref: bool) -> Boxe
         prop::collection::vec(win_strategy(), 1..=4),
     )
         .prop_map(move |(mut common, variants, sort, entries, windows)| {
-            if sort_required(sort_mode_tag(&sort)) && !common.iter().any(|p| sortable(p.kind)) {
+            if !sort.is_empty() && !common.iter().any(|p| sortable(p.kind)) {
                 // a sorted store needs at least one sortable common property
                 common.insert(0, PropSpec { kind: PKind::Array { fixed: 2, store: 0 }, constant: false });
                 common.truncate(MAX_COMMON);
@@ -324,12 +328,6 @@ pub fn estore_strategy(size: SizeClass, sort: SortMode, allow_ref: bool) -> Boxe
         .boxed()
 }
 
-fn sort_mode_tag(sort: &[u8]) -> bool {
-    !sort.is_empty()
-}
-fn sort_required(b: bool) -> bool {
-    b
-}
 
 pub fn sortable(k: PKind) -> bool {
     matches!(k, PKind::UInt | PKind::SInt | PKind::Array { .. })
@@ -1067,4 +1065,98 @@ pub fn shape_classes(model: &DirModel, spec: &DirSpec) -> Vec<String> {
     c.sort();
     c.dedup();
     c
+}
+
+// ---------------------------------------------------------------------------------------
+// independent decoder vs. model
+
+/// The independent decoder must recover exactly the model from the bytes of a directory pack.
+pub fn verify_indep_dir(pack_bytes: &[u8], dec: &crate::indep::DirectoryPackDec, model: &DirModel) -> Result<u64, Failure> {
+    let mut evals = 0;
+    ensure!(
+        dec.entry_stores.len() == model.stores.len(),
+        "indep-dir-shape",
+        "independent decoder sees {} entry stores, {} were written",
+        dec.entry_stores.len(),
+        model.stores.len()
+    );
+    ensure!(
+        dec.value_stores.len() == model.vstores.len(),
+        "indep-dir-shape",
+        "independent decoder sees {} value stores, {} were added",
+        dec.value_stores.len(),
+        model.vstores.len()
+    );
+    for (k, (vs, kind)) in dec.value_stores.iter().zip(model.vstores.iter()).enumerate() {
+        let ok = matches!(
+            (vs, kind),
+            (crate::indep::ValueStoreDec::Plain { .. }, StoreKind::Plain) | (crate::indep::ValueStoreDec::Indexed { .. }, StoreKind::Indexed)
+        );
+        ensure!(ok, "indep-dir-shape", "value store {k}: kind on disk differs from the kind created ({kind:?})");
+    }
+    for (si, sm) in model.stores.iter().enumerate() {
+        ensure!(
+            dec.entry_stores[si].entry_count as usize == sm.entries.len(),
+            "indep-dir-shape",
+            "store {si}: {} entries on disk, {} written",
+            dec.entry_stores[si].entry_count,
+            sm.entries.len()
+        );
+        for (wname, off, cnt) in &sm.windows {
+            let Some(ix) = dec.indexes.iter().find(|i| &i.name == wname) else {
+                fail!("indep-dir-shape", "index {wname} not found by the independent decoder");
+            };
+            ensure!(
+                ix.store as usize == si && ix.offset as usize == *off && ix.count as usize == *cnt,
+                "indep-index-header",
+                "index {wname}: on disk (store {}, offset {}, count {}), created (store {si}, offset {off}, count {cnt})",
+                ix.store,
+                ix.offset,
+                ix.count
+            );
+        }
+        for p in 0..sm.entries.len() {
+            let got = match dec.entry(pack_bytes, si, p as u32) {
+                Ok(g) => g,
+                Err(e) => fail!("indep-entry-decode", "store {si} entry {p}: independent decoder: {e}"),
+            };
+            let exp = sm.expected_at(p);
+            if got != exp {
+                fail!("indep-entry-value", "store {si} entry {p}: independent decoder reads {:?}, written {:?}", got, exp);
+            }
+            evals += 1;
+        }
+    }
+    Ok(evals)
+}
+
+/// An indexed value store whose tail cannot be referenced by a 16-bit sized offset:
+/// the one class of in-range input the format cannot represent (creation must refuse it).
+pub fn unrepresentable_tail(model: &DirModel) -> bool {
+    for (k, kind) in model.vstores.iter().enumerate() {
+        if *kind != StoreKind::Indexed {
+            continue;
+        }
+        let mut values: std::collections::BTreeSet<Vec<u8>> = Default::default();
+        for sm in &model.stores {
+            for p in sm.schema.common.iter().chain(sm.schema.variants.iter().flatten()) {
+                if let PKind::Array { fixed, store } = p.kind {
+                    if store as usize == k {
+                        for e in &sm.entries {
+                            if let Some(DVal::A(a)) = e.vals.get(p.name) {
+                                let cut = (fixed as usize).min(a.len());
+                                values.insert(a[cut..].to_vec());
+                            }
+                        }
+                    }
+                }
+            }
+        }
+        let total: u64 = values.iter().map(|v| v.len() as u64).sum();
+        let osz = (1..=8u64).find(|n| *n == 8 || total < (1u64 << (8 * n))).unwrap();
+        if 10 + osz * (values.len() as u64).max(1) > 0xFFFF {
+            return true;
+        }
+    }
+    false
 }
